@@ -249,13 +249,14 @@ def check_c19(tier, seed):
     rng = random.Random(seed + 19)
     consts = dict(DISC_CONST)
     quick = tier == "quick"
-    consts.update({"MaxURIs": 2, "MaxLen": 2 if quick else 3, "Chars": "{1, 2, 3, 5, 7, 8}" if quick else "{1, 2, 3, 4, 5, 7, 8}"})
-    model, states, cex = run_model("mc/MC_Discover.tla", "DSpec", consts, ["Inv_C19", "Inv_C19order"], 900 if quick else 3400,
-                                   want=("uris", "args", "res"), dump=quick)
+    consts.update({"MaxURIs": 2, "MaxLen": 3, "Chars": "{1, 3, 5, 7, 8}" if quick else "{1, 2, 3, 4, 5, 7, 8}", "Tier": '"quick"' if quick else '"thorough"'})
+    model, _, cex = run_model("mc/MC_Discover.tla", "DSpec", consts, ["Inv_C19", "Inv_C19order"], 900 if quick else 3400,
+                              want=("uris", "args", "res"), dump=False)
     models = [model]
-    if not quick:
-        c2 = dict(consts, MaxLen=2, Chars="{1, 2, 3, 5, 7, 8}")
-        _, states, _ = run_model("mc/MC_Discover.tla", "DSpec", c2, ["Inv_C19"], 900, want=("uris", "args", "res"))
+    # behaviours to replay come from a smaller instance (the dump of the full one is too large to parse quickly)
+    c2 = dict(consts, Chars="{1, 3, 5, 8}", Tier='"quick"', MaxURIs=2, MaxLen=2 if quick else 3)
+    m2, states, _ = run_model("mc/MC_Discover.tla", "DSpec", c2, ["Inv_C19"], 900, want=("uris", "args", "res"))
+    models.append(m2)
     calls = Calls({"C19"})
     done = [s for s in states if s.get("args")]
     if cex:
